@@ -151,9 +151,9 @@ func tolLo(lo time.Duration) time.Duration {
 }
 
 const (
-	longWait   = 4 * time.Second // a wait at least this long cannot elapse by accident
-	upperSlack = 2 * time.Second
-	promptness = 3 * time.Second
+	longWait   = 7 * time.Second // a wait at least this long cannot elapse by accident
+	upperSlack = 5 * time.Second
+	promptness = 5 * time.Second
 	tolDL      = 100 * time.Microsecond
 )
 
@@ -284,14 +284,14 @@ func gen(t *rapid.T) Script {
 			}
 			if i == at {
 				if longInitial {
-					s.Backoff.InitialUS = int64(rapid.IntRange(6_000_000, 10_000_000).Draw(t, "long_initial_us"))
+					s.Backoff.InitialUS = int64(rapid.IntRange(10_000_000, 14_000_000).Draw(t, "long_initial_us"))
 					s.Backoff.MaxIntUS = s.Backoff.InitialUS
 					if s.Backoff.RandX100 > 30 {
 						s.Backoff.RandX100 = 30
 					}
 				} else {
 					o.Throttle = true
-					o.ThrottleUS = int64(rapid.IntRange(5_000_000, 10_000_000).Draw(t, "long_throttle_us"))
+					o.ThrottleUS = int64(rapid.IntRange(8_000_000, 12_000_000).Draw(t, "long_throttle_us"))
 				}
 			}
 			s.Outcomes = append(s.Outcomes, o)
@@ -853,5 +853,5 @@ func classify(c *vt.C, tr *trace) {
 }
 
 func TestRetryPolicy(t *testing.T) {
-	vt.Run(t, cR, vt.N(3200, 60000), gen, run)
+	vt.Run(t, cR, vt.N(9600, 400000), gen, run)
 }
